@@ -3,6 +3,7 @@ package p10
 import (
 	"fmt"
 	"sync"
+	"time"
 
 	"verifharness/internal/run"
 )
@@ -131,10 +132,10 @@ func concurrent(c *run.Ctx, forKeys bool, N int) {
 		}
 		rounds := c.N(4000, 16000)
 		if c.Flavour == "race" {
-			rounds = 3000 // the race detector makes every evaluation an order of magnitude slower; it needs interleavings, not volume
+			rounds = 1500 // the race detector makes every evaluation an order of magnitude slower; it needs interleavings, not volume
 		}
 		cs := &Case{Kind: "conc", Tpl: tpl, Ctxs: pooledStateCtxs(), W: 12, Rounds: rounds}
-		c.Begin(cs, 0)
+		c.Begin(cs, 15*time.Minute) // many evaluations by design: the default per-case watchdog is for single evaluations
 		c.Nontrivial("conc-pooled", tpl)
 		c.Count("conc_cases", 1)
 		c.Count("conc_pooled_state_cases", 1)
